@@ -129,3 +129,8 @@ package y
 //@ declare hashOf(b []byte) uint32
 //@ trusted func Hash
 //@   ensures result == hashOf(b)
+
+//@ func BytesToU64
+//@   props C28
+//@   requires len(b) >= 8
+//@   ensures result == be64(b, 0)
